@@ -2,6 +2,7 @@ package funcGen
 
 import (
 	"bytes"
+	"errors"
 	"fmt"
 	"github.com/hneemann/parser2"
 	"github.com/hneemann/parser2/listMap"
@@ -1377,7 +1378,23 @@ func (g *FunctionGenerator[V]) genCodeMap(a listMap.ListMap[parser2.AST], gc Gen
 	return
 }
 
+// errorWithFunctionDocu marks an error that already carries the list of available functions
+type errorWithFunctionDocu struct {
+	error
+}
+
+func (e errorWithFunctionDocu) Unwrap() error {
+	return e.error
+}
+
 func (g *FunctionGenerator[V]) generateStaticFunctionDocu(err error) error {
+	// the list is added only once: in nested calls like f(1)(2)(3) every level passes
+	// the error of the level below; adding the list at every level makes the error text
+	// and the time needed to create it grow quadratically with the nesting depth
+	var hasDocu errorWithFunctionDocu
+	if errors.As(err, &hasDocu) {
+		return err
+	}
 	type sf struct {
 		name string
 		f    Function[V]
@@ -1395,7 +1412,7 @@ func (g *FunctionGenerator[V]) generateStaticFunctionDocu(err error) error {
 		b.WriteRune('\n')
 		f.f.Description.WriteTo(&b, f.name)
 	}
-	return fmt.Errorf("%w\n\nAvailable functions are:%s", err, b.String())
+	return errorWithFunctionDocu{fmt.Errorf("%w\n\nAvailable functions are:%s", err, b.String())}
 }
 
 func (g *FunctionGenerator[V]) GetStaticDocumentation() TypeDocumentation {
